@@ -548,6 +548,9 @@ def c19(tier, seed):
         shards.append(Shard(mem_asan, ["--mode", "strings", "--prec", p, "--seed", S(seed)], "asan/strings/%s" % p, env=ASAN_ENV, timeout=3600))
         shards.append(Shard(mem_plain, ["--mode", "growth", "--prec", p], "plain/growth/%s" % p))
         shards.append(Shard(mem_asan, ["--mode", "badstdout", "--prec", p, "--seed", S(seed)], "asan/unwritable-stdout/%s" % p, env=ASAN_ENV, timeout=3600))
+        shards.append(Shard(mem_asan, ["--mode", "xvalues", "--prec", p, "--seed", S(seed)], "asan/extreme-values/%s" % p, env=ASAN_ENV, timeout=3600))
+    shards.append(Shard(mem_asan, ["--mode", "atexit", "--seed", S(seed)], "asan/api-at-process-shutdown", env=ASAN_ENV, timeout=3600))
+    shards.append(Shard(mem_plain, ["--mode", "atexit", "--seed", S(seed)], "vg/api-at-process-shutdown", wrapper=VALGRIND, timeout=3600))
     shards.append(Shard(mem_asan, ["--mode", "carrays", "--seed", S(seed)], "asan/carrays", env=ASAN_ENV))
     # the history / catalogue / C-ABI / name workloads again, under the sanitizers
     hist_a = build.build_bin("exc-asan", "mon_hist", HIST_SRCS)
